@@ -18,18 +18,25 @@ package main
 //   []int8         List (BitVec 8)
 //   []int, []uint  List (BitVec 64)
 //   p *[N]T        (parameters that are only read by p[i] / len(p)) the list of the N elements
-//   error          Option String: none = nil, some "ErrX" = an error that wraps the package variable ErrX = errors.New(…)
+//   error          Option String: none = nil, some "ErrX" = an error that wraps the package variable ErrX = errors.New(…);
+//                  in a function that builds &T{ErrX, off} (T a struct {error; int} of the package whose pointer is an
+//                  error): Option (String × BitVec 64), some ("ErrX", off) = a *T with these two fields
 //
 // Statements: x := e, var x T [= e], x = e, x op= e, x++/x--, a[i] = e, _ = a[c] (bounds-check hint), if/else without
 // init, return (anywhere, see below), `for i := range a`, `for _, v := range a`, `for i := range n` (int),
 // `for i := a; i < b; i++` and its variants (<=, >, >=, i--, i += k, i -= k; loops_flow.go: forStmt),
-// `for len(x) >= c { …; x = x[k:]; … }` (whileStmt), x = x[k:] on a slice parameter, nested blocks.
+// `for len(x) >= c { …; x = x[k:]; … }` (whileStmt), x = x[k:] on a slice parameter, nested blocks,
+// `switch tag { case c1, c2: …; default: … }` on an integer tag with constant case values, with `fallthrough`, and
+// `switch { case cond: …; default: … }` (default last, no fallthrough) (loops_flow.go: switchStmt), unlabeled `break`
+// out of a loop where it is the last statement of the loop body or of `if c { …; break }` blocks in tail position of
+// it; as the last statement of a switch clause `break` is a no-op, anywhere else in a clause it is rejected (it
+// would leave the switch, not the loop).
 // Expressions: constants, variables, read-only package-level slice variables, unary - ^ ! +,
-// binary + - * & | ^ &^ << >> == != < <= > >= && ||, a[i], len, append, make, slice
-// literals, conversions between the integer types and []byte(string), calls of functions
+// binary + - * & | ^ &^ << >> == != < <= > >= && ||, x / c and x % c for a non-zero constant c, a[i], len, append,
+// make, slice literals, conversions between the integer types and []byte(string), calls of functions
 // of the same package translated earlier in the same translateLoopFuncs call (unless they can panic or
 // write into a parameter), math/bits.TrailingZeros, fmt.Errorf("…%w…", …, ErrX, …), nil and package-level
-// errors.New variables as error values.
+// errors.New variables as error values, &T{ErrX, off}.
 //
 // Two shapes of output.  A function in which nothing can panic and every return is the last statement of the
 // function or of an else-less `if` in tail position is translated as a plain value, exactly as before (range loops
@@ -60,7 +67,8 @@ package main
 //   * `a[i] = e` is accepted for a local `a := make(…)` that is never reassigned and
 //     never the first argument of append, and for a slice PARAMETER a (an output buffer) when the function
 //     returns no slice and the element type of a differs from that of every other slice / array parameter
-//     (so the arrays cannot overlap): the content of the caller's array on return becomes an additional
+//     (so the arrays cannot overlap; with the same element type only under the explicit, documented assumption
+//     "!disjoint" of translateLoopFuncs): the content of the caller's array on return becomes an additional
 //     component of the result.  An output buffer that is also resliced is the pair
 //     (part already passed, current window).
 // Three-clause loops are folds over Go.forUp / Go.forDown (the list of values of the loop variable, computed
@@ -240,6 +248,7 @@ const (
 	kInt8s               // []int8
 	kUints               // []uint
 	kErr                 // error
+	kErrAt               // error in a function that builds &T{ErrX, off}: the pair (name of ErrX, off)
 )
 
 func (k lkind) lean() string {
@@ -256,6 +265,8 @@ func (k lkind) lean() string {
 		return "List (BitVec 64)"
 	case kErr:
 		return "Option String"
+	case kErrAt:
+		return "Option (String × BitVec 64)"
 	}
 	die("lkind.lean")
 	return ""
@@ -316,6 +327,8 @@ type loopSet struct {
 	all     map[string]bool // every function of the call (for name clashes)
 	pkgVars []*types.Var    // package variables used, in order of first use
 	varText map[*types.Var]string
+	// functions translated under the assumption that the arrays of their parameters do not overlap
+	disjoint map[string]bool
 }
 
 type loopCtx struct {
@@ -356,6 +369,10 @@ type loopTr struct {
 	outBufs []types.Object          // slice parameters the function writes into, in parameter order
 	pairBuf map[types.Object]bool   // those of them that are also resliced: (part already passed, current window)
 	retTy   string                  // Lean type of the result tuple
+	// switch statements and structured errors (see loops_flow.go)
+	errAt      bool                   // the function builds &T{ErrX, off}: error ↦ Option (String × BitVec 64)
+	mayOverlap []string               // output buffers accepted only under the assumption `disjoint` (for the doc comment)
+	synthCond  map[*ast.IfStmt]string // conditionals made from switch clauses: the Lean text of the condition ("" = translate Cond)
 }
 
 func (t *loopTr) fail(n ast.Node, format string, a ...interface{}) {
@@ -402,11 +419,19 @@ func (t *loopTr) kindOf(ty types.Type, at ast.Node) lkind {
 		}
 	case *types.Interface:
 		if types.Identical(ty, types.Universe.Lookup("error").Type()) {
-			return kErr
+			return t.errKind()
 		}
 	}
 	t.fail(at, "type %s is outside the translated subset", ty)
 	return 0
+}
+
+// errKind is the carrier of `error` in this function.
+func (t *loopTr) errKind() lkind {
+	if t.errAt {
+		return kErrAt
+	}
+	return kErr
 }
 
 func sliceKind(elem types.Type) (lkind, bool) {
